@@ -2,6 +2,7 @@
 From Coq Require Import List NArith ZArith Bool Strings.Byte Strings.String Permutation.
 Import ListNotations.
 Require Import Params Iauth ReloadEq.
+Require Mon01 Local ReloadSim.
 Local Open Scope list_scope.
 
 (* after a reload the configured (service, protocol) pairs and the rule list are those of a daemon started fresh on the new
@@ -25,3 +26,31 @@ Theorem queries_depend_on_configured_services_only : forall ss slot is_pw r outs
   qpass (scrub ss) slot is_pw r outs efs = qpass ss slot is_pw r outs efs.
 Proof. exact qpass_configured_only. Qed.
 Print Assumptions queries_depend_on_configured_services_only.
+
+(* THE BEHAVIOURAL STATEMENT: "a client arriving afterwards is treated exactly as by a daemon freshly started on that file".
+   s = ANY state with distinct ids (old clients, stale and referenced slots, whatever); s1 = s after a reload to (svs, rs, t);
+   s0 = the daemon freshly started on (svs, rs, t); i = an id that is not live at the reload; h = ANY history of abstract events
+   (Local.aev: lines, and replies addressed to the live instance) of ANY clients, old ones included.  Then the outputs of i's own
+   steps on the reloaded daemon and the outputs of the fresh daemon on i's events alone are, step by step, the same (OutEq): the
+   non-query lines (challenges, +x, U line, soft-done, verdict with account and class) are identical and in the same order, and the
+   query lines are the same up to their order within the step and the serial in the routing tag; and no other step says anything
+   about i.  CiDistinct: no two configured service names differ only by letter case - true of every configuration tree (its keys
+   are compared case-insensitively, C14 parsed_tree_is_sorted) and NECESSARY: ci_distinct_needed below. *)
+Theorem newcomer_after_reload_is_treated_as_by_a_fresh_daemon : forall c s svs rs t i h,
+  NoDup (map fst svs) -> ReloadSim.CiDistinct (map fst (spec svs)) ->
+  Mon01.NoDupIds (reqs s) -> lookup i (reqs s) = None ->
+  let s1 := fst (step_ev c s (Reload svs rs t)) in
+  let s0 := init c svs rs t in
+  Forall2 ReloadSim.OutEq (ReloadSim.own i c s1 h) (Local.arun c s0 (filter (Local.abelongs i) h)) /\ ReloadSim.others i c s1 h = [].
+Proof. exact ReloadSim.newcomer_after_reload_interleaved. Qed.
+Print Assumptions newcomer_after_reload_is_treated_as_by_a_fresh_daemon.
+
+(* with two configured names that differ only by case the statement fails (a class rule's xreply_ok finds the first slot whose name
+   matches case-insensitively, and slot order depends on the daemon's past): the hypothesis cannot be dropped *)
+Theorem ci_distinct_needed :
+  exists c s svs rs t i h,
+    NoDup (map fst svs) /\ Mon01.NoDupIds (reqs s) /\ lookup i (reqs s) = None /\ Forall (fun a => Local.aid a = i) h /\
+    ~ Forall2 (fun o1 o0 => Permutation (map Local.eser o1) (map Local.eser o0))
+        (Local.arun c (fst (step_ev c s (Reload svs rs t))) h) (Local.arun c (init c svs rs t) h).
+Proof. exact ReloadSim.ci_distinct_needed. Qed.
+Print Assumptions ci_distinct_needed.
